@@ -10,7 +10,7 @@ from ..index import AnalysisError, dotted_chain, norm, unparse, walk_no_nested, 
 from ..serial import Registry
 from ..fieldflow import base_field
 from ..cfg import CFG
-from ..util import calls_in, call_name, where, parent_map, returns_of, enclosing, expand_locals
+from ..util import calls_in, call_name, where, parent_map, returns_of, enclosing, expand_locals, kwarg
 from .. import props
 
 props.prop(
@@ -99,6 +99,7 @@ def run(ctx):
     ctx.guard(rule_k, ctx, ix, reg)
     ctx.guard(rule_l, ctx, ix)
     ctx.guard(rule_m, ctx, ix)
+    ctx.guard(rule_n, ctx, ix)
 
 
 # ---------------------------------------------------------------------------------------
@@ -736,6 +737,13 @@ def rule_h(ctx, ix):
                     for t in st.targets:
                         if isinstance(t, ast.Name):
                             tainted.add(t.id)
+        for bo in [b for b in ast.walk(f.node) if isinstance(b, ast.BoolOp) and isinstance(b.op, ast.Or)]:
+            if saved(bo.values[0]) and not isinstance(bo.values[0], ast.Name):
+                default = unparse(bo.values[-1])
+                ctx.ob(R, '%s `%s`' % (f.construct, norm(bo)[:80]), 'a falsy saved value is not replaced by another default inside the loader',
+                       default.replace(' ', '') in FALSY_DEFAULTS,
+                       detail='%s reads the saved value as `%s`: a saved falsy value (0, "", an empty list) comes back as %s instead of '
+                              'what was saved' % (f.construct, norm(bo)[:100], default), where=where(f, bo))
         for call in calls_in(f.node):
             K = None
             if isinstance(call.func, ast.Name) and call.func.id == 'cls' and f.cls is not None:
@@ -1027,3 +1035,48 @@ def rule_m(ctx, ix):
     n = _common.check_element_order(ctx, R, ix, ['glue.utils.array'], what='the result is reshaped in C order')
     if n < 2:
         raise AnalysisError('C02.m: only %d flatten / reshape calls in glue.utils.array' % n)
+
+
+def rule_n(ctx, ix):
+    """The pixel / world identifier lists of a restored dataset are positional (entry i belongs to axis i).  The loaders rebuild
+    them by sorting the restored coordinate components: the sort key has to order by axis (within world / pixel), whatever order
+    the components were saved in (reorder_components is public)."""
+    R = 'C02.n'
+    ctx.describe(R, 'restored coordinate components are ordered by (world, axis) before they become the positional identifier lists', floor=2)
+    cc = ix.cls('glue.core.component.CoordinateComponent')
+    lt = cc.resolve_func('__lt__')
+    own_order = lt is not None and {'axis', 'world'} <= {n.attr for n in ast.walk(lt.node) if isinstance(n, ast.Attribute)}
+    n = 0
+    for q, f in sorted(ix.functions.items()):
+        if not q.startswith('glue.core.state.'):
+            continue
+        if not any(isinstance(st, ast.Assign) and any(unparse(t).endswith('._pixel_component_ids') for t in st.targets) for st in ast.walk(f.node)):
+            continue
+        sorts = [c for c in calls_in(f.node) if call_name(c) in ('sorted', 'sort')]
+        if not sorts:
+            ctx.idiom(R, f.construct, 'coordinate components are sorted', accepted=False, absent=False, detail_absent='',
+                      shape='no sorted() / .sort() in a loader that assigns _pixel_component_ids')
+            continue
+        for c in sorts:
+            n += 1
+            key = kwarg(c, 'key')
+            if key is None:
+                ok, how = own_order, 'the components\' own ordering'
+            elif isinstance(key, ast.Lambda):
+                arg = key.args.args[0].arg
+                body = key.body
+                attrs = {x.attr for x in ast.walk(body) if isinstance(x, ast.Attribute)}
+                whole = isinstance(body, ast.Subscript) and isinstance(body.value, ast.Name) and body.value.id == arg or \
+                    (isinstance(body, ast.Name) and body.id == arg)
+                ok = (whole and own_order) or 'axis' in attrs
+                how = 'key `%s`' % unparse(body)
+            else:
+                ctx.idiom(R, f.construct, 'sort key recognised', accepted=False, absent=False, detail_absent='', shape=unparse(key))
+                continue
+            ctx.ob(R, '%s `%s`' % (f.construct, norm(c)[:60]), 'the sort orders by axis (%s)' % how, ok,
+                   detail='%s sorts the restored coordinate components with %s, which does not order by axis: for a dataset whose '
+                          'components were reordered before saving (Data.reorder_components) the restored pixel_component_ids / '
+                          'world_component_ids are permuted, and everything positional (aligned links, pixel-axis selections) uses the '
+                          'wrong axis' % (f.construct, how), where=where(f, c))
+    if n < 2:
+        raise AnalysisError('C02.n: only %d coordinate sorts found in the loaders' % n)
